@@ -44,15 +44,22 @@ func Copy(ctx context.Context, ids []ChunkID, src Store, dst WriteStore, n int, 
 	}
 
 	// Feed the workers, the context is cancelled if any goroutine encounters an error
+	var feedErr error
 loop:
 	for _, c := range ids {
 		select {
 		case <-ctx.Done():
+			// Either a worker failed (its error is returned below) or the
+			// operation was cancelled before all chunks were handed out
+			feedErr = Interrupted{}
 			break loop
 		case in <- c:
 		}
 	}
 	close(in)
 
-	return g.Wait()
+	if err := g.Wait(); err != nil {
+		return err
+	}
+	return feedErr
 }
